@@ -78,8 +78,10 @@ def np_compare(lib, run, op, a, b):
             return SeqV('B', fn(a.term, real(b)))
     if isinstance(a, SeqV) and a.kind == 'I' and isinstance(b, Num) and op == 'Eq':
         return SeqV('B', ieqmask(a.term, intterm(b)))
-    if isinstance(a, MatV) and isinstance(b, Num) and op == 'Gt':
-        return MatV(F('mgt01', Mat, Real, Mat)(a.term, real(b)))      # 0/1 matrix of (a > b)
+    if isinstance(a, MatV) and isinstance(b, (Num, BoolV)) and op in ('Gt', 'GtE', 'Lt', 'LtE'):
+        nm = {'Gt': 'mgt01', 'GtE': 'mge01', 'Lt': 'mlt01', 'LtE': 'mle01'}[op]
+        from . import liblinalg      # noqa: F401  (element-level axioms of the comparison matrices)
+        return MatV(F(nm, Mat, Real, Mat)(a.term, real(b)))      # 0/1 matrix of (a op b)
     raise Unsupported('comparison %s of %r and %r' % (op, a, b))
 
 
